@@ -82,6 +82,11 @@ pub fn run(tier: Tier, seed: u64) -> i32 {
             // IG(c mean, c shape) = c IG(mean, shape) must also hold for tiny c
             if f.is32 { scs.extend_from_slice(&[2f64.powi(-26), 2f64.powi(-60)]); } else { scs.extend_from_slice(&[2f64.powi(-60), 2f64.powi(-300)]); }
         }
+        if f.kind == 2 {
+            // supports far narrower than the float type's epsilon (only representable next to 0; other locations are
+            // refused by the constructor): still an exact power-of-two image of the canonical [0, 1] case
+            if f.is32 { scs.extend_from_slice(&[2f64.powi(-26), 2f64.powi(-40)]); } else { scs.extend_from_slice(&[2f64.powi(-60), 2f64.powi(-300)]); }
+        }
         if f.kind == 0 && !f.name.starts_with("InverseGaussian") {
             // scales next to the ends of the float range: the map must stay finite whenever its exact value is
             if f.is32 { scs.extend_from_slice(&[2f64.powi(-100), 2f64.powi(126)]); } else { scs.extend_from_slice(&[2f64.powi(-1000), 2f64.powi(1022)]); }
